@@ -316,6 +316,11 @@ class Gen:
                 pieces.append(f if f is not None else self.strpiece("s"))
             else:
                 pieces.append(self.strpiece("s"))
+        if any(_is_fpiece(x) for x in pieces):
+            # known findings: an empty plain literal next to an f-string is kept as an empty Constant; a `u`
+            # prefix does not reach the format-spec constants
+            pieces = [x[1:] if x[:1] == "u" else x for x in pieces]
+            pieces = [x for x in pieces if not _is_empty_plain(x)] or ["'a'"]
         sep = (lambda: self.S()) if self.br else (lambda: self.ch([" ", "", "  "]))
         out = pieces[0]
         for x in pieces[1:]:
@@ -1099,6 +1104,24 @@ class Gen:
 
 # ---------------------------------------------------------------------------------------------------------
 # known-finding shape predicates (shared by the generator, which avoids them, and by classify())
+
+def _is_fpiece(lit):
+    k = 0
+    while k < len(lit) and lit[k] not in "'\"":
+        k += 1
+    return "f" in lit[:k].lower()
+
+
+def _is_empty_plain(lit):
+    """a non-f string literal token with empty body"""
+    k = 0
+    while k < len(lit) and lit[k] not in "'\"":
+        k += 1
+    if "f" in lit[:k].lower():
+        return False
+    body = lit[k:]
+    return body in ("''", '""', "", '""""""')
+
 
 def _tokens(line):
     import io
